@@ -44,16 +44,18 @@ fn periodic(d: &[u64]) -> Option<usize> {
     None
 }
 
-/// Logical clock inside one pass: tokens emitted. Calibrated against the corpus: the largest pass
-/// of any corpus project emits fewer than 5 000 tokens (reported as `max_tokens_emitted_in_one_pass`
-/// in the C06 evidence), so a pass that is still emitting after 60 000 tokens is an expansion that
-/// feeds itself. (A runaway expansion also slows down as it goes - every invocation adds a scope - so
-/// the budget cannot be generous: 100 000 tokens already take minutes.)
-pub const WORK_BUDGET: u64 = 60_000;
+/// Logical clock inside one pass: tokens emitted. Calibrated against the workloads: the largest pass of
+/// any envsim corpus project emits fewer than 5 000 tokens (`max_tokens_emitted_in_one_pass` in the C06
+/// evidence); mutated lspsim buffers reach 60 000-100 000 (a macro that, after a lost brace, invokes itself
+/// 32 levels deep around an import) and are still done in milliseconds - a budget of 60 000 was a false alarm of
+/// the thorough C14 tier (1 history in 300 000). 1 000 000 is ten times the largest legitimate pass seen. An
+/// expansion that feeds itself AND slows down as it goes may hit the supervisor's watchdog (a harness error, no
+/// verdict) before it gets here; that is the price of never flagging a pass that would have finished.
+pub const WORK_BUDGET: u64 = 1_000_000;
 pub const WORK_BUDGET_MARKER: &str = "VERIF-WORK-BUDGET";
 
 pub fn install() {
-    verif_hooks::set_work_budget(WORK_BUDGET);
+    verif_hooks::set_work_budget(std::env::var("VERIF_WORK_BUDGET").ok().and_then(|v| v.parse().ok()).unwrap_or(WORK_BUDGET));
     let st = Rc::new(RefCell::new(PassState::default()));
     STATE.with(|s| *s.borrow_mut() = Some(st.clone()));
     verif_hooks::set_observer(Some(Box::new(move |pass: usize, digest: u64| {
